@@ -308,6 +308,20 @@ pub fn quiet_catch<T>(f: impl FnOnce() -> T + std::panic::UnwindSafe) -> Result<
     }
 }
 
+/// `catch_unwind` WITHOUT a watchdog case: for wrappers around a whole check (whose duration is not a case's)
+pub fn quiet_catch_unwatched<T>(f: impl FnOnce() -> T + std::panic::UnwindSafe) -> Result<T, String> {
+    match std::panic::catch_unwind(f) {
+        Ok(v) => Ok(v),
+        Err(e) => Err(if let Some(s) = e.downcast_ref::<&str>() {
+            s.to_string()
+        } else if let Some(s) = e.downcast_ref::<String>() {
+            s.clone()
+        } else {
+            "<non-string panic payload>".to_string()
+        }),
+    }
+}
+
 pub fn install_quiet_panic_hook() {
     std::panic::set_hook(Box::new(|_| {}));
 }
